@@ -125,6 +125,23 @@ func (m *Model) extractPratt() *prattModel {
 		})
 	}
 	if !found {
+		// not a plain literal: take the table the package initialiser builds
+		if mp, ok := m.evalGlobals("parser")["precedences"].(*iMap); ok && mp.vals != nil && len(mp.vals) > 0 {
+			found = true
+			for ks, v := range mp.vals {
+				kc, vc := mp.kval[ks], v
+				vcc, isC := vc.(constant.Value)
+				if kc == nil || !isC {
+					found = false
+					break
+				}
+				k, _ := constant.Int64Val(kc)
+				val, _ := constant.Int64Val(vcc)
+				pm.prec[pm.tokName[k]] = val
+			}
+		}
+	}
+	if !found {
 		pm.problems = append(pm.problems, "parser.precedences table not found")
 	}
 	// peekPrecedence: evaluated for every token type (constant propagation through whatever helpers it uses)
